@@ -7,7 +7,7 @@ use std::{convert::TryInto, ffi::CStr, sync::Mutex, time::Duration};
 use crate::imp;
 
 use super::{
-    bool8_t, copy_info, device, device::DeviceModuleRef, system, CopyTo, GenTlError, GenTlResult,
+    assert_non_null, bool8_t, copy_info, device, device::DeviceModuleRef, system, CopyTo, GenTlError, GenTlResult,
     ModuleHandle, GC_ERROR, INFO_DATATYPE,
 };
 
@@ -104,6 +104,8 @@ gentl_api! {
         pBuffer: *mut libc::c_void,
         piSize: *mut libc::size_t,
     ) -> GenTlResult<()> {
+        assert_non_null(piType)?;
+        assert_non_null(piSize)?;
         let handle = unsafe { ModuleHandle::from_raw_manually_drop(hIface)? };
         let iface = handle.interface()?;
 
@@ -118,6 +120,7 @@ gentl_api! {
         sIDeviceID: *mut libc::c_char,
         piSize: *mut libc::size_t,
     ) -> GenTlResult<()> {
+        assert_non_null(piSize)?;
         let handle = unsafe { ModuleHandle::from_raw_manually_drop(hIface)? };
         let iface = handle.interface()?;
 
@@ -142,6 +145,9 @@ gentl_api! {
         pBuffer: *mut libc::c_void,
         piSize: *mut libc::size_t,
     ) -> GenTlResult<()> {
+        assert_non_null(sDeviceID)?;
+        assert_non_null(piType)?;
+        assert_non_null(piSize)?;
         let handle = unsafe { ModuleHandle::from_raw_manually_drop(hIface)? };
         let iface = handle.interface()?;
 
@@ -155,6 +161,7 @@ gentl_api! {
 
 gentl_api! {
     pub fn IFGetNumDevices(hIface: IF_HANDLE, piNumDevices: *mut u32) -> GenTlResult<()> {
+        assert_non_null(piNumDevices)?;
         let handle = unsafe { ModuleHandle::from_raw_manually_drop(hIface)? };
         let iface = handle.interface()?;
 
@@ -174,6 +181,8 @@ gentl_api! {
         iOpenFlag: device::DEVICE_ACCESS_FLAGS,
         phDevice: *mut device::DEV_HANDLE,
     ) -> GenTlResult<()> {
+        assert_non_null(sDeviceID)?;
+        assert_non_null(phDevice)?;
         let handle = unsafe { ModuleHandle::from_raw_manually_drop(hIface)? };
         let iface = handle.interface()?;
 
@@ -198,6 +207,7 @@ gentl_api! {
         pbChanged: *mut bool8_t,
         iTimeout: u64,
     ) -> GenTlResult<()> {
+        assert_non_null(pbChanged)?;
         let handle = unsafe { ModuleHandle::from_raw_manually_drop(hIface)? };
         let iface = handle.interface()?;
 
@@ -215,6 +225,7 @@ gentl_api! {
 
 gentl_api! {
     pub fn IFGetParentTL(hIface: IF_HANDLE, phSystem: *mut system::TL_HANDLE) -> GenTlResult<()> {
+        assert_non_null(phSystem)?;
         let handle = unsafe { ModuleHandle::from_raw_manually_drop(hIface)? };
         let iface = handle.interface()?;
 
